@@ -109,3 +109,27 @@ def method_query(m, qname, harness="crypt_method.c", max_s=None, max_p=None, cap
     q.replay_kind = "crypt"
     q.replay_prefix = m.prefix
     return q
+
+
+def rel_query(m, qname, mode, max_s=None, max_p=6, cap_k=2, timeout=1500, model="digest_uf.c", extra_defs=()):
+    """Relational query (harness/crypt_rel.c) over UF digest models."""
+    max_s = m.max_s if max_s is None else max_s
+    out_max = len(m.prefix) + max_s + m.hash_len + 22
+    scr = {"crypt_nt_rn": 1280, "crypt_sha512crypt_rn": 1024, "crypt_sha256crypt_rn": 512}.get(m.fn, 384)
+    defs = ["METHOD_FN=" + m.fn, "PREFIX_STR=" + cstr(m.prefix), "MAX_S=%d" % max_s, "MAX_P=%d" % max_p,
+            "HASH_LEN=%d" % m.hash_len, "HASH_ALPHA=%d" % m.alpha, "OUT_MAX=%d" % out_max, mode,
+            "SCRATCH_GARBAGE=%d" % min(256, scr), "SCR_SIZE=%d" % scr] + [d for d in m.mdefs] + list(extra_defs)
+    if m.precond:
+        defs += ["SETTING_PRECOND=" + m.precond, "VF_DES_CH"]
+    loops = [("^harness$|^slen$|^tok$", None, max(out_max, 260) + 2, False), ("^absorb$", None, 10, False), ("^emit$", None, 10, False)]
+    for freg, sreg in m.caps:
+        loops.append((freg, sreg, cap_k, True))
+    loops += m.extra_loops + lib_loops(out_max + 2)
+    models = ["libc.c", "des_uf.c" if "M_DES" in m.mdefs else model]
+    q = Query(qname, "crypt_rel.c", units=["util-xstrcpy.c", "util-base64.c"] + m.units, models=models,
+              defs=defs, unwind=max(max_p + 2, 20), loops=loops, timeout=timeout)
+    q.loops_optional = True
+    q.str_bound = out_max + 2
+    q.replay_kind = "crypt"
+    q.replay_prefix = m.prefix
+    return q
